@@ -161,14 +161,21 @@ structure St where
   hist : Array (List String) := #[]
   outs : Array String := #[]
   cmp : Array Bool := #[]
-  crashPts : List (Nat × Core) := [(0, {})]      -- (index of the first op the restarted process sees, store found)
+  crashPts : List (Nat × Core × Bool) := [(0, {}, true)]  -- (first op the restarted process sees, store found, quiet?)
   deriving Inhabited
 
 def init : St := {}
 
 /-- crash at the persistent state `c` reached during op `i`: boot on the node as it is then, continue
     with ops i+1 …, compare every comparable observation with the uninterrupted run -/
-def replay (st : St) (i : Nat) (c : Core) : Option String :=
+def pendingObs (a : List String) : Bool :=
+  match a with
+  | op :: _ => ["sbu", "pend", "hsbu", "shistp", "bhistp"].contains op
+  | [] => false
+
+/-- `quiet` = the follower had caught up with the node when the operation containing the commit was
+    over; for the other crash points only the confirmed state is compared (see eng_crash.go) -/
+def replay (st : St) (i : Nat) (c : Core) (quiet : Bool) : Option String :=
   let c0 := { c with V := bootVol c.P }
   let r := crash c0.env nc c0.P
   if !r.ok then some s!"op={i} boot-failed" else
@@ -180,6 +187,7 @@ def replay (st : St) (i : Nat) (c : Core) : Option String :=
       if j ≥ st.hist.size then none else
       let a := st.hist[j]!
       let (nx, out, _) := stepCore cur a
+      if !quiet && pendingObs a then go fuel (j + 1) nx else
       if st.cmp[j]! && out != st.outs[j]! then some s!"op={i} at={j}:{"_".intercalate a} twin={st.outs[j]!} crash={out}"
       else go fuel (j + 1) nx
   go (st.hist.size + 1) i c1
@@ -187,7 +195,7 @@ def replay (st : St) (i : Nat) (c : Core) : Option String :=
 def step (st : St) (args : List String) : St × String :=
   match args with
   | ["crashall", _d, _m] =>
-    let res := st.crashPts.findSome? (fun pc => replay st pc.1 pc.2)
+    let res := st.crashPts.findSome? (fun pc => replay st pc.1 pc.2.1 pc.2.2)
     (st, match res with | none => "ok\tok" | some d => "diff " ++ d ++ "\tok")
   | ["commits"] => (st, toString st.core.commits)
   | _ =>
@@ -199,7 +207,7 @@ def step (st : St) (args : List String) : St × String :=
     let out := if inv then out0 else "MODEL-INVARIANT-BROKEN " ++ out0
     ({ core := c', hist := st.hist.push args, outs := st.outs.push out,
        cmp := st.cmp.push (isObservation args && caughtUp c'),
-       crashPts := st.crashPts ++ pts.map (fun p => (i + 1, p)) },
+       crashPts := st.crashPts ++ pts.map (fun p => (i + 1, p, caughtUp c')) },
      out)
 
 end MW.Drv.Crash
